@@ -104,6 +104,8 @@ func init() {
 	}
 }
 
+var addedFiles = map[string]string{}
+
 var (
 	siteNames = map[int]string{}
 	nextSite  = 1
@@ -144,7 +146,36 @@ func main() {
 			ownSet[p] = true
 		}
 	}
-	args := []string{"list", "-export", "-deps", "-json=ImportPath,Dir,GoFiles,Export,ImportMap,Module,Standard"}
+	// added files (export shims) must be visible to the type-checking build as well:
+	// a first overlay with only the additions
+	addOverlay := map[string]string{}
+	if *addDir != "" {
+		mcmd := exec.Command(*goBin, append([]string{"list", "-m", "-f", "{{.Dir}}"}, modfileArgs(*modfile, *modPath)...)...)
+		mcmd.Dir = *simDir
+		mcmd.Stderr = os.Stderr
+		mo, err := mcmd.Output()
+		if err != nil {
+			fatal("go list -m failed: %v", err)
+		}
+		modDir := strings.TrimSpace(string(mo))
+		filepath.Walk(*addDir, func(path string, info os.FileInfo, err error) error {
+			if err != nil || info.IsDir() || !strings.HasSuffix(path, ".go") {
+				return nil
+			}
+			rel, _ := filepath.Rel(*addDir, filepath.Dir(path))
+			rel = filepath.ToSlash(rel)
+			if rel == *modPath || strings.HasPrefix(rel, *modPath+"/") {
+				addOverlay[filepath.Join(modDir, strings.TrimPrefix(rel, *modPath), filepath.Base(path))] = path
+			}
+			return nil
+		})
+	}
+	addedFiles = addOverlay
+	must(os.MkdirAll(*out, 0o755))
+	aob, _ := json.Marshal(map[string]any{"Replace": addOverlay})
+	addJSON := filepath.Join(*out, "overlay_add.json")
+	must(os.WriteFile(addJSON, aob, 0o644))
+	args := []string{"list", "-overlay", addJSON, "-export", "-deps", "-json=ImportPath,Dir,GoFiles,Export,ImportMap,Module,Standard"}
 	if *race {
 		args = append(args, "-race")
 	}
@@ -194,24 +225,8 @@ func main() {
 		nfiles += n
 		nedits += e
 	}
-	// added files
-	if *addDir != "" {
-		byPath := map[string]*listPkg{}
-		for _, p := range pkgs {
-			byPath[p.ImportPath] = p
-		}
-		filepath.Walk(*addDir, func(path string, info os.FileInfo, err error) error {
-			if err != nil || info.IsDir() || !strings.HasSuffix(path, ".go") {
-				return nil
-			}
-			rel, _ := filepath.Rel(*addDir, filepath.Dir(path))
-			p := byPath[filepath.ToSlash(rel)]
-			if p == nil {
-				return nil // package not part of this build
-			}
-			overlay[filepath.Join(p.Dir, filepath.Base(path))] = path
-			return nil
-		})
+	for k, v := range addOverlay {
+		overlay[k] = v
 	}
 	ob, _ := json.MarshalIndent(map[string]any{"Replace": overlay}, "", " ")
 	must(os.WriteFile(filepath.Join(*out, "overlay.json"), ob, 0o644))
@@ -225,6 +240,13 @@ func main() {
 		fmt.Fprintln(os.Stderr, "instr: warning:", w)
 	}
 	fmt.Fprintf(os.Stderr, "instr: %d files rewritten, %d edits, %d sites\n", nfiles, nedits, len(siteNames))
+}
+
+func modfileArgs(modfile, mod string) []string {
+	if modfile != "" {
+		return []string{"-modfile", modfile, mod}
+	}
+	return []string{mod}
 }
 
 func fatal(f string, a ...any) {
@@ -259,7 +281,11 @@ func instrumentPkg(p *listPkg, exports map[string]string, gover, relroot, out st
 	var names []string
 	for _, f := range p.GoFiles {
 		path := filepath.Join(p.Dir, f)
-		src, err := os.ReadFile(path)
+		rp := path
+		if m, ok := addedFiles[path]; ok {
+			rp = m
+		}
+		src, err := os.ReadFile(rp)
 		must(err)
 		af, err := parser.ParseFile(fset, path, src, parser.ParseComments|parser.SkipObjectResolution)
 		if err != nil {
